@@ -5,8 +5,6 @@
    Because hypothesis and conclusion have the same shape, the theorems chain through any nesting depth
    (`nested_example`). Handlers (`~.`-chains) and pending `defer`s are the stated exceptions. -/
 import Pangaea.Lemmas.Core
-import Pangaea.Generated.C07
-import Pangaea.Eval.ErrSites
 namespace Pangaea.C07
 open Pangaea.Core
 
@@ -278,11 +276,5 @@ theorem nested_example (e1 l r callee : Expr) (v1 vl vr : Val) (s3 : St)
   · exact (by simp [Gives, evalOpt] : Gives (evalOpt (fuel + 2) none env) s2 .nil s2)
   apply args_head _ _ _ _ (by intro e'; simp)
   exact infix_right "+" l r vl (by decide) hl hraise
-
-/-! ### the implementation's side: inventory regenerated from evaluator/*.go on every run -/
-/-- **Every evaluation result is checked.** The results of Eval-like calls that package evaluator never tests for an
-    error are exactly the reviewed ones (conversion hooks, which the property excludes, and one unfinished feature). -/
-theorem unchecked_results_are_the_reviewed_ones :
-    Generated.C07.uncheckedResults = ErrSites.reviewed.map (·.1) ∧ Generated.C07.inspectedSites ≥ 40 := by decide +kernel
 
 end Pangaea.C07
